@@ -61,7 +61,7 @@ static std::string buildDifference(const std::vector<std::string>& a, const std:
 }
 static void buildAfterMain();
 // (never destroyed: the atexit handler still reads it)
-static const std::vector<std::string>& gBuiltBeforeMain = *new std::vector<std::string>((lateReport(), atexit(buildAfterMain), buildFixedSet()));
+static const std::vector<std::string>& gBuiltBeforeMain = *new std::vector<std::string>((lateReport(), atexit(buildAfterMain), probeInChild(buildFixedSet)));
 static void buildAfterMain()
 {
     const std::string& prop = lateReport().prop;
@@ -74,7 +74,9 @@ static void buildAfterMain()
 static void buildOutsideMainCase(Ctx& c)
 {
     auto now = buildFixedSet();
-    std::string d = buildDifference(gBuiltBeforeMain, now);
+    std::string d = probeDied(gBuiltBeforeMain);
+    if (d.empty())
+        d = buildDifference(gBuiltBeforeMain, now);
     ++c.evaluations;
     c.count("builder_calls_also_made_before_and_after_main", now.size());
     if (!d.empty())
